@@ -481,7 +481,8 @@ class Effects:
                     it = n.iter
                     if isinstance(it, ast.Subscript) and isinstance(it.slice, ast.Slice):
                         it = it.value
-                    if isinstance(n.target, ast.Name) and isinstance(it, ast.Name) and fresh.get(it.id, False) and it.id in deep(is_fresh_expr):
+                    if isinstance(n.target, ast.Name) and isinstance(it, ast.Name) and fresh.get(it.id, False) and (
+                            it.id in deep(is_fresh_expr) or it.id in self.deep_containers(f)):
                         # the elements of a container built in this call that only ever received objects built in this call
                         fresh[n.target.id] = fresh.get(n.target.id, True)
                         continue
